@@ -101,9 +101,58 @@ def gen_map_case(rng) -> dict:
     return {"schemas": schemas, "docs": docs}
 
 
+def gen_union_case(rng) -> dict:
+    """union-typed properties (oracle only — variant choice is C14's model): an un-discriminated oneOf/anyOf of object
+    schemas whose required sets form a chain (V1 > V2 > ..: the declared order decodes every conforming document
+    as its own variant on the unchanged tree), as a property and as array items, optionally a discriminated oneOf;
+    a SEQUENCE of documents through one converter, later variants first"""
+    k = rng.randint(2, 3)
+    base = rng.choice(["petName", "name", "item-id"])
+    extras = rng.sample(["livesLeft", "indoor-only", "adoptedAt", "class", "max_load"], k - 1)
+    opts = rng.sample(["furColor", "goodBoy", "bark-volume", "type", "from", "tagList"], k)
+    scal = lambda: rng.choice(["int", "bool", ["str", None], ["str", "date"]])  # noqa: E731
+    schemas = [None]
+    for i in range(k):                       # variant i requires base + extras[: k-1-i]
+        props = [{"name": base, "required": True, "nullable": False, "schema": ["str", None]}]
+        props += [{"name": e, "required": True, "nullable": False, "schema": scal()} for e in extras[: k - 1 - i]]
+        props += [{"name": opts[i], "required": False, "nullable": False, "schema": scal()}]
+        schemas.append({"id": i + 1, "name": f"M{i + 1}", "props": props})
+    vids = list(range(1, k + 1))
+    root = [{"name": "owner", "required": True, "nullable": False, "schema": ["str", None]},
+            {"name": "pet", "required": False, "nullable": False, "schema": ["union", rng.choice(["oneOf", "anyOf"]), vids, None]},
+            {"name": "all-pets", "required": False, "nullable": False,
+             "schema": ["arr", ["union", rng.choice(["oneOf", "anyOf"]), vids, None]]}]
+    if rng.random() < 0.5:
+        a, b = k + 1, k + 2
+        for i, nm in ((a, "aVal"), (b, "b-val")):
+            schemas.append({"id": i, "name": f"M{i}", "props": [
+                {"name": "kind", "required": True, "nullable": False, "schema": ["str", None]},
+                {"name": nm, "required": False, "nullable": False, "schema": "int"}]})
+        root.append({"name": "tagged", "required": False, "nullable": False,
+                     "schema": ["union", "oneOf", [a, b], {"prop": "kind", "mapping": [["alpha", a], ["beta", b]]}]})
+    schemas[0] = {"id": 0, "name": "M0", "props": root}
+    docs = []
+    n = rng.randint(4, 7)
+    for j in range(n):
+        prefer = vids[-1] if j < n // 2 else vids[0]          # later variants first, then the earlier ones
+        kvs = [["owner", ["s", rng.choice(STRS)]]]
+        pick = lambda: prefer if rng.random() < 0.7 else rng.choice(vids)  # noqa: E731
+        if rng.random() < 0.8:
+            kvs.append(["pet", gen_doc_obj(rng, schemas, pick(), 2, False)])
+        if rng.random() < 0.6:
+            kvs.append(["all-pets", ["l", [gen_doc_obj(rng, schemas, pick(), 2, False) for _ in range(rng.randint(0, 3))]]])
+        if len(root) > 3 and rng.random() < 0.6:
+            kvs.append(["tagged", gen_doc_val(rng, schemas, root[3]["schema"], 2, False)])
+        rng.shuffle(kvs)
+        docs.append([0, ["m", kvs]])
+    return {"schemas": schemas, "docs": docs, "oracle_only": True}
+
+
 def gen_case(rng, focus: str | None = None) -> dict:
     if focus == "maponly":
         return gen_map_case(rng)
+    if focus == "union":
+        return gen_union_case(rng)
     nsch = rng.randint(1, 3)
     schemas = []
     for sid in range(nsch):
@@ -190,6 +239,12 @@ def gen_doc_val(rng, schemas, ps, depth, z_ok) -> Any:
     if k == "arr":
         n = rng.randint(0, 2) if depth > 0 else 0
         return ["l", [gen_doc_val(rng, schemas, ps[1], depth - 1, z_ok) for _ in range(n)]]
+    if k == "union":
+        if ps[3]:
+            val, sid = rng.choice(ps[3]["mapping"])
+            d = gen_doc_obj(rng, schemas, sid, depth - 1, z_ok)
+            return ["m", [[ps[3]["prop"], ["s", val]]] + [kv for kv in d[1] if kv[0] != ps[3]["prop"]]]
+        return gen_doc_obj(rng, schemas, rng.choice(ps[2]), depth - 1, z_ok)
     if k == "map":
         ks = rng.sample(["k", "a-1", "slotA", "id", "x y", ""], rng.randint(0, 2) if depth > 0 else 0)
         return ["m", [[kk, gen_doc_val(rng, schemas, ps[1], depth - 1, z_ok)] for kk in ks]]
@@ -235,6 +290,12 @@ def to_openapi(case: dict) -> dict:
             return {"type": "array", "items": conv(ps[1], own)}
         if k == "map":
             return {"type": "object", "additionalProperties": conv(ps[1], own)}
+        if k == "union":      # ["union", "oneOf"|"anyOf", [ids], discriminator | None]
+            d = {ps[1]: [{"$ref": f"#/components/schemas/M{i}"} for i in ps[2]]}
+            if ps[3]:
+                d["discriminator"] = {"propertyName": ps[3]["prop"],
+                                      "mapping": {v: f"#/components/schemas/M{i}" for v, i in ps[3]["mapping"]}}
+            return d
         return {"$ref": f"#/components/schemas/M{ps[1]}"}
     schemas, paths = {}, {}
     for s in case["schemas"]:
@@ -340,7 +401,7 @@ def main(arg):
 
     out_classes = []
     for i in sorted(classes):
-        if i in maps:
+        if i in maps or arg.get("oracle_only"):
             continue
         c = classes[i]
         fs = []
@@ -371,7 +432,7 @@ def main(arg):
             inst, ob = None, ["ValueError", str(e)[:300]]
         except BaseException as e:
             inst, ob = None, ["Other", type(e).__name__ + ": " + str(e)[:200]]
-        ops.append({"op": "structure", "ty": ty(classes[sid]), "doc": doc, "obs": ob})
+        ops.append({"op": "structure", "ty": ["data", sid] if arg.get("oracle_only") else ty(classes[sid]), "doc": doc, "obs": ob})
         if ob[0] == "ok":
             try:
                 ob2 = ["ok", canon(cc.unstructure_to_dict(inst))]
@@ -526,12 +587,17 @@ def finish_case(case: dict, g) -> dict:
         if not g.ok:
             return {"input": case, "skipped": f"generator failed: {g.error}"}
         r = pipeline.drive(g, DRIVER, {"package": g.package, "names": {str(s["id"]): s["name"] for s in case["schemas"]},
-                                       "map_ids": [s["id"] for s in case["schemas"] if "map" in s], "docs": case["docs"]})
+                                       "map_ids": [s["id"] for s in case["schemas"] if "map" in s], "docs": case["docs"],
+                                       "oracle_only": bool(case.get("oracle_only"))})
     finally:
         g.cleanup()
     if not r["ok"]:
         return {"input": case, "skipped": f"package not importable / driver error: {r['error'][:300]}"}
     res = r["result"]
+    if case.get("oracle_only"):
+        if has_unknown(res):
+            return {"input": case, "skipped": "driver could not canonicalise a value: " + json.dumps(find_unknown(res))[:300]}
+        return {"input": case, "obs": res, "oracle_fail": oracle(case, res), "oracle_only": True}
     if has_unknown(res):
         return {"input": case, "skipped": "construct outside the modelled fragment: " + json.dumps(find_unknown(res))[:300]}
     san = {p["name"]: NameSanitizer.sanitize_method_name(p["name"]) for s in case["schemas"] for p in s.get("props", [])}
@@ -559,6 +625,8 @@ def main(chk: Check, replay: dict | None = None) -> int:
         inputs.append(gen_case(rng, focus="nofindings" if i % 2 == 0 else None))
     for i in range(n // 4):
         inputs.append(gen_case(rng, focus="maponly"))
+    for i in range(n // 3):
+        inputs.append(gen_case(rng, focus="union"))
     with ThreadPoolExecutor(max_workers=6) as ex:
         futs = [ex.submit(finish_case, c, start_case(c)) for c in inputs]
         results = [f.result() for f in futs]
@@ -601,20 +669,27 @@ def main(chk: Check, replay: dict | None = None) -> int:
     chk.cov["input_distribution"] = dist
     for c in cases[:2] + cases[-1:]:
         chk.sample({"input": c["input"], "obs": c["obs"]})
+    modelled = [c for c in cases if not c.get("oracle_only")]
+    oracle_only = [c for c in cases if c.get("oracle_only")]
+    dist["union_cases_oracle_only"] = len(oracle_only)
     codes = None
     if chk.model_ok:
         codes = chk.coq_eval("From PG Require Import Lib.Strs Model.Converter Model.ModelGen Corr.C16 Corr.C03.",
-                             "c03_in * c03_obs", [c["coq"] for c in cases], "Corr.C03.run", shard=12)
+                             "c03_in * c03_obs", [c["coq"] for c in modelled], "Corr.C03.run", shard=12)
     for c in cases:
         c.pop("coq", None)
     if codes is not None:
-        bad = [c for c, k in zip(cases, codes) if (k >> 4) & 1]
+        bad = [c for c, k in zip(modelled, codes) if (k >> 4) & 1]
         if bad:
-            chk.broken.append({"kind": "guard", "name": "C03_maps_bijective_partial: generated field names not distinct",
+            chk.broken.append({"kind": "guard", "name": "C03_maps_bijective: generated field names not distinct",
                                "mismatches": len(bad), "first": {"input": bad[0]["input"], "obs": bad[0]["obs"]["classes"]}})
-    chk.decide(cases, codes, {2: "F03b"},
+    chk.decide(modelled, codes, {2: "F03b"},
                "Corr.C03.run: gen_class + run_ops (model) = dataclasses of the generated package + its own "
                "structure_from_dict/unstructure_to_dict")
+    # union-typed properties: no model comparison here (variant choice is C14's model); the oracle alone decides
+    before = chk.cov["traces_validated_against_impl"]
+    chk.decide(oracle_only, [0] * len(oracle_only), {}, "oracle only (union-typed properties)")
+    chk.cov["traces_validated_against_impl"] = before
     return chk.finish(TRUSTED,
                       rule="corpus + seeded specs (1-3 object schemas, 1-6 properties from a pool of camel/snake/kebab/keyword-like/"
                            "colliding names, every string format, enums, arrays, nested and self references, nullable) x 3-6 "
